@@ -397,19 +397,44 @@ func modelText(e *etree.Element) string {
 	return t
 }
 
+// strTab interns the string literals of one case file: a tree pair repeats a few hundred distinct
+// strings thousands of times, and Coq type-checks a literal character by character.
+type strTab struct {
+	names map[string]string
+	defs  strings.Builder
+}
+
+var curTab *strTab
+
+func newStrTab() *strTab { return &strTab{names: map[string]string{}} }
+
+// cs prints a string as a Coq term (a name of the current table, or a literal without table).
+func cs(s string) string {
+	if curTab == nil || s == "" {
+		return lib.CoqString(s)
+	}
+	if n, ok := curTab.names[s]; ok {
+		return n
+	}
+	n := fmt.Sprintf("s%d", len(curTab.names))
+	curTab.names[s] = n
+	fmt.Fprintf(&curTab.defs, "Definition %s : string := %s.\n", n, lib.CoqString(s))
+	return n
+}
+
 func coqAttr(a etree.Attr) string {
-	return fmt.Sprintf("mkAttr %s %s %s", lib.CoqString(a.Space), lib.CoqString(a.Key), lib.CoqString(a.Value))
+	return fmt.Sprintf("mkAttr %s %s %s", cs(a.Space), cs(a.Key), cs(a.Value))
 }
 
 func coqElem(e *etree.Element) string {
-	var as, cs []string
+	var as, kids []string
 	for _, a := range e.Attr {
 		as = append(as, coqAttr(a))
 	}
 	for _, c := range e.ChildElements() {
-		cs = append(cs, coqElem(c))
+		kids = append(kids, coqElem(c))
 	}
-	return fmt.Sprintf("(Elem %s [%s] %s [%s])", lib.CoqString(e.Tag), strings.Join(as, "; "), lib.CoqString(modelText(e)), strings.Join(cs, "; "))
+	return fmt.Sprintf("(Elem %s [%s] %s [%s])", cs(e.Tag), strings.Join(as, "; "), cs(modelText(e)), strings.Join(kids, "; "))
 }
 
 func coqPath(steps []selStep) string {
@@ -418,11 +443,11 @@ func coqPath(steps []selStep) string {
 		p := "PNone"
 		switch s.Kind {
 		case 1:
-			p = fmt.Sprintf("(PAttr %s %s)", lib.CoqString(s.Name), lib.CoqString(s.Val))
+			p = fmt.Sprintf("(PAttr %s %s)", cs(s.Name), cs(s.Val))
 		case 2:
 			p = fmt.Sprintf("(PIdx %s)", lib.Zs(int64(s.Idx)))
 		}
-		l = append(l, fmt.Sprintf("mkStep %s %s", lib.CoqString(s.Tag), p))
+		l = append(l, fmt.Sprintf("mkStep %s %s", cs(s.Tag), p))
 	}
 	return "[" + strings.Join(l, "; ") + "]"
 }
@@ -431,7 +456,7 @@ func coqOp(o patchOp) string {
 	p := coqPath(o.Steps)
 	if o.Attr != "" {
 		c := map[string]string{"replace": "OReplaceAttr", "add": "OAddAttr", "remove": "ORemoveAttr"}[o.Kind]
-		return fmt.Sprintf("%s %s %s %s", c, p, lib.CoqString(o.Attr), lib.CoqString(o.Text))
+		return fmt.Sprintf("%s %s %s %s", c, p, cs(o.Attr), cs(o.Text))
 	}
 	switch o.Kind {
 	case "replace":
